@@ -19,7 +19,7 @@ from pw_verif.world import World, prepare, reset_library_globals
 
 TOL_EXACT = 1e-8
 TOL_EXPM = 1e-6       # operators built by a matrix exponential with |eta| up to 4 pi (jax expm ~2e-9 per element)
-TOL_TRUNC = 5e-3      # displacement / squeezing (documented truncation threshold 1-1e-6)
+TOL_TRUNC = 2.5e-3    # displacement / squeezing: documented threshold keeps 1-1e-6 of the population (~1e-3 in amplitude); measured worst case on the repaired tree 6e-4
 
 
 def site_of(world: World, pre: Snapshot, targets: List[str], entry: str, action: str, extra=None) -> dict:
@@ -107,7 +107,7 @@ class Run:
         tol = TOL_TRUNC if name in ("Displace", "Squeeze") else TOL_EXACT
         if td > tol:
             trg = float(np.real(np.trace(got)))
-            what = "trace" if abs(trg - 1) > 1e-6 and ref.trace_distance(got / trg, want) <= tol else "state"
+            what = "trace" if abs(trg - 1) > 1e-6 and abs(trg) > 1e-9 and ref.trace_distance(got / trg, want) <= tol else "state"
             raise Violation("differs", f"{opdesc['type']} via {entry} on {targets} (storage {site['storage']}/{site['rep']}): "
                             f"trace distance {td:.3e} from (OxI)rho(OxI)+ (trace of result {trg:.6f})", dict(site, what=what))
         return dict(outcome="applied", site=site, pre=pre, post=post, td=td)
